@@ -230,6 +230,7 @@ pub fn cap128() -> String { String::with_capacity(128) }
 pub fn cap192() -> String { String::with_capacity(192) }
 pub fn cap320() -> String { String::with_capacity(320) }
 
+
 /// (native) formats an oracle triple through the REAL `pad_integral`
 pub struct Tr<'a>(pub bool, pub &'a str, pub &'a str);
 impl<'a> fmt::Display for Tr<'a> {
